@@ -279,6 +279,10 @@ def body(chk):
                               typed=[(t, r) for t in ("int64", "int32", "uint16", "intp") for r in (1, 2, max(1, n - 1), n, n + 1, 1024)]))
     for c in [c for c in cases if c["fs"] == "local"]:
         cases.append(dict(c, trailing=1 + len(cases) % 3, typed=[]))
+    # as many lines as a real scene has per default request (4096 .. 4500): request sizes around and above 4096 lines
+    cases.append(dict(level="1.5", images=[("HH", None, 4500, 2)], seed=chk.seed + 45, fs="local", rpcs=[None, 4095, 4096, 4097, 4499, 4500, 4501, 10**6], typed=[]))
+    if chk.tier == "thorough":
+        cases.append(dict(level="1.1", images=[("HH", None, 8200, 1)], seed=chk.seed + 46, fs="local", rpcs=[None, 4096, 4097, 8192, 8193, 8200, 10**9], typed=[]))
     L.tables()
     want = [dict(L.SMALL_LEADER), dict(L.SMALL_LEADER, nmap=0), dict(file="trailer", nlow=0, lens=[])] + \
            [dict(file="volume", nfp=k) for k in (3, 4, 5)]
